@@ -21,6 +21,7 @@ Conventions
 * the md5 cache holds the pre-image (ksize, mins), as in `MH`.
 -/
 import SmVerif.Model.MinHash
+import SmVerif.Model.SigOps
 
 namespace Sm
 
@@ -239,6 +240,23 @@ def countCommon (s o : BT) (downsample : Bool) : Except MH.Err Nat :=
     s.checkCompatible o
     pure (interL s.mins o.mins).length
 
+/-- `enable_abundance` -/
+def enableAbundance (s : BT) : Except MH.Err BT :=
+  if !s.mins.isEmpty then .error .nonEmpty else .ok { s with abunds := some [] }
+
+/-- `disable_abundance` -/
+def disableAbundance (s : BT) : BT := { s with abunds := none }
+
+/-- `set_hash_function` (molecule type as its code: 1 dna, 2 protein, 3 dayhoff, 4 hp) -/
+def setHashFunction (s : BT) (h : Nat) : Except MH.Err BT :=
+  if s.hf = h then .ok s
+  else if !s.mins.isEmpty then .error .nonEmpty
+  else .ok { s with hf := h }
+
+/-- `downsample_max_hash(self, max_hash)` -/
+def downsampleMaxHash (s : BT) (maxHash : Nat) : Except MH.Err BT :=
+  if s.maxHash = 0 then .ok s else s.downsampleScaled (scR maxHash)
+
 /-! ### conversions -/
 
 /-- `impl From<&KmerMinHashBTree> for KmerMinHash` (and the by-value one): a fresh
@@ -319,6 +337,9 @@ def downsampleScaledFix (s : BT) (scaled : Nat) : Except MH.Err BT :=
     let n := BT.new scaled s.ksize s.hf s.seed s.abunds.isSome s.num
     .ok (if s.abunds.isSome then n.addManyAbFix s.toVecAbunds else n.addManyFix s.mins)
 
+def downsampleMaxHashFix (s : BT) (maxHash : Nat) : Except MH.Err BT :=
+  if s.maxHash = 0 then .ok s else s.downsampleScaledFix (scR maxHash)
+
 /-- repaired `From<KmerMinHash>` -/
 def ofVecFix (v : MH) : BT :=
   let r := ofVec v
@@ -331,8 +352,23 @@ def deserializeFix (j : Json) : BT :=
 
 end BT
 
-/-! ### serde of `KmerMinHash` (same field list) -/
+/-! ### serde of `KmerMinHash` (same field list), and the small mutators of `KmerMinHash` that
+`Model/MinHash.lean` does not have (`disable_abundance` is `MH.disableAbundance` of `Model/SigOps.lean`) -/
 namespace MH
+
+/-- `enable_abundance` -/
+def enableAbundance (s : MH) : Except Err MH :=
+  if !s.mins.isEmpty then .error .nonEmpty else .ok { s with abunds := some [] }
+
+/-- `set_hash_function` -/
+def setHashFunction (s : MH) (h : Nat) : Except Err MH :=
+  if s.hf = h then .ok s
+  else if !s.mins.isEmpty then .error .nonEmpty
+  else .ok { s with hf := h }
+
+/-- `downsample_max_hash(self, max_hash)` -/
+def downsampleMaxHash (s : MH) (maxHash : Nat) : Except Err MH :=
+  if s.maxHash = 0 then .ok s else s.downsampleScaled (scR maxHash)
 
 def serialize (s : MH) : MH × BT.Json :=
   let (s', d) := s.md5sum
